@@ -4,6 +4,7 @@
   HAPServerProtocol.data_received on a secured connection). Lemmas: Proofs/Frame.lean.
 -/
 import Proofs.Frame
+import Proofs.Nonce
 import HapModel.Gen.Crypto
 namespace Hap.Frame
 open Hap
@@ -149,6 +150,23 @@ theorem C04_pool_independent (A : Nat → Aead) (p : Pool) (s : List (Nat × Byt
       rw [hp] at h
       exact h
 
+
+/-- Byte level of the receive side. With the cipher object seen as the code sees it (`decrypt(nonce,
+    data, aad)` over byte strings, `BAead`), frame number `n` of a direction is opened under the 12-byte
+    nonce `PACK_NONCE(n)` = 4 zero bytes ‖ LE64 `n`; `PACK_NONCE` is defined exactly for `n < 2^64`
+    (`struct.error` beyond); the frame number can be read back from the nonce, so two different frame
+    numbers of one session never share a nonce. Every theorem above applies verbatim to `B.toAead`. -/
+theorem C04_nonce (B : BAead) (n : Nat) (aad ct : Bytes) :
+    B.toAead.dec n aad ct = B.dec (nonceBytes n) aad ct ∧
+    (nonceBytes n).length = 12 ∧ (nonceBytes n).take 4 = [0, 0, 0, 0] ∧
+    (n < NONCE_LIMIT → packNonce n = some (nonceBytes n) ∧ rdLe ((nonceBytes n).drop 4) = n) ∧
+    (NONCE_LIMIT ≤ n → packNonce n = none) ∧
+    (∀ m, n < NONCE_LIMIT → m < NONCE_LIMIT → nonceBytes n = nonceBytes m → n = m) := by
+  refine ⟨rfl, nonceBytes_length n, by simp [nonceBytes, leBytes], ?_, ?_, ?_⟩
+  · intro h; exact ⟨by simp [packNonce, h], nonce_roundtrip n h⟩
+  · intro h; simp [packNonce, Nat.not_lt.mpr h]
+  · intro m hn hm e; exact nonceBytes_inj n m hn hm e
+
 /-- The loop as it was before the repair (`>` instead of `>=`) does not deliver a complete
     19-byte frame (1-byte payload) that sits at the end of the buffer; the repaired loop does. -/
 theorem C04_legacy_counterexample :
@@ -157,6 +175,7 @@ theorem C04_legacy_counterexample :
   decide +kernel
 
 /-! non-vacuity -/
+example : packNonce 258 = some [0, 0, 0, 0, 2, 1, 0, 0, 0, 0, 0, 0] ∧ packNonce NONCE_LIMIT = none := by decide
 example : Correct (mockAead 3) := mock_correct 3
 example : Ideal (tableAead [[1, 2], [3]]) [[1, 2], [3]] ∧
     (tableAead [[1, 2], [3]]).dec 1 (le16 1) ((tableAead [[1, 2], [3]]).enc 1 (le16 1) [3]) = some [3] :=
